@@ -287,7 +287,7 @@ def rgb_to_oklch_safe(rgb: Tuple[int, int, int]) -> Tuple[float, float, float]:
         # Fallback to grayscale conversion if color conversion fails
         r, g, b = rgb
         gray = 0.299 * r + 0.587 * g + 0.114 * b
-        gray_normalized = gray / 255.0
+        gray_normalized = max(0.0, min(1.0, gray / 255.0))
         return (gray_normalized, 0.0, 0.0)  # Achromatic color
 
 
@@ -311,7 +311,7 @@ def oklch_to_rgb_safe(oklch: Tuple[float, float, float]) -> Tuple[int, int, int]
     except Exception as e:
         # Fallback to grayscale if conversion fails
         L, C, H = oklch
-        gray_value = max(0, min(255, round(L * 255)))
+        gray_value = round(max(0.0, min(1.0, L)) * 255)
         return (gray_value, gray_value, gray_value)
 
 
